@@ -358,6 +358,11 @@ class ConnectionManager:
                 (connect_task, closing_task),
                 return_when=FIRST_COMPLETED,
             )
+            closing_task.cancel()
+            if not connect_task.done():
+                # close() was called during back-off or while the connection attempt was pending.
+                # Without this the attempt would still be made, and its transport never closed.
+                connect_task.cancel()
 
             if self._connection:
                 _, protocol = self._connection
@@ -367,10 +372,15 @@ class ConnectionManager:
                     (done_task, closing_task2),
                     return_when=FIRST_COMPLETED,
                 )
+                closing_task2.cancel()
 
                 if not self._is_closing.is_set():
                     _LOGGER.warning("Connection lost")
                     self._update_connection_lost_circuit_breaker()
+                elif self._connection:
+                    # The connection was established at the same time as close() was called.
+                    transport, _ = self._connection
+                    transport.close()
 
                 self._connection = None
 
